@@ -300,12 +300,12 @@ def generator_rows(case, ctx):
     no_integrals = spec["cls"] == "NLDFSettingsVI" and not spec["l0_feat_specs"] and not spec["l1_feat_specs"]
     try:
         desc = get_descriptors(ana, s)
-    except RuntimeError as e:
-        if "exponent is too large" in str(e):
-            ctx.event("exponent_guard_raised")
+    except Exception as e:
+        if "exponent" in str(e).lower() and "large" in str(e).lower():
+            ctx.event("exponent_guard_raised")     # the documented guard, whatever exception type carries it
             return
-        raise
-    except ValueError as e:
+        if not isinstance(e, ValueError):
+            raise
         if no_integrals and "empty collection" in str(e):
             ctx.event("degenerate_settings_rejected:no_convolved_integral")   # only grad(n).grad(n) dots: nothing to convolve
             return
@@ -661,19 +661,19 @@ def plan_rejection(case, ctx):
     for bad in (np.ones((1, 5, 3)), np.ones((4, 3)), np.ones((1, 3, 3)), np.ones((1, 1, 4, 3)), np.ones((1, 5, 4)), np.ones((1, 3, 4))):
         try:
             nl.get_normalized_feature_vector(bad)
-        except ValueError:
+        except Exception:     # "raise an error": the property does not fix the exception type
             continue
         ctx.check(False, ("normalizer_list_accepts_shape",), shape=bad.shape)
     for bad in (np.ones((1, 5, 3)), np.ones((4, 3)), np.ones((1, 5, 4))):
         try:
             nl.get_derivative_wrt_unnormed_features(bad, bad)
-        except ValueError:
+        except Exception:
             continue
         ctx.check(False, ("normalizer_list_accepts_shape", "bwd"), shape=bad.shape)
     model = types.SimpleNamespace(nfeat=4 + 1 + pick % 2)
     try:
         ModelWithNormalizer(model, nl)
-    except ValueError:
+    except Exception:
         pass
     else:
         ctx.check(False, ("model_with_normalizer_accepts_size_mismatch",))
@@ -732,7 +732,7 @@ def expnt_guard(case, ctx):
         ctx.nontrivial([flag, pa["plan"], pa["nspin"], spec["sl_level"], i == -1, sorted(set(case["factors"]))])
     try:
         a, da = plan.eval_feat_exp(rho_tuple, i=i)
-    except RuntimeError as e:
+    except Exception as e:     # "raises an error": the property does not fix the exception type
         ctx.check(flag == "default" and beyond, ("guard_raised_wrongly", flag, "beyond" if beyond else "inside"), message=str(e),
                   factors=f)
         return
